@@ -298,21 +298,27 @@ theorem checkLimitsLoop_allFalse (fuel : Nat) (s : State) (now : Time) (mem : Li
       · rfl
     · rfl
 
-theorem sim_makeRoom {s : State} {r : Ref} (h : Sim s r) (fuel : Nat) (now : Time) :
-    Sim (checkLimitsLoop fuel s now []) (Ref.makeRoom fuel r now) := by
-  induction fuel generalizing s r with
+theorem sim_makeRoom {s : State} {r : Ref} (h : Sim s r) (fuel : Nat) (now : Time) (mem : List Bool) :
+    Sim (checkLimitsLoop fuel s now mem) (Ref.makeRoom fuel r now mem) := by
+  induction fuel generalizing s r mem with
   | zero => exact h
   | succ n ih =>
     unfold checkLimitsLoop Ref.makeRoom
-    have hc : (Gen.limitsLoopCond s.size s.limit (([] : List Bool).headD false) = true) ↔
-        (r.limit > 0 ∧ r.entries.length ≥ r.limit) := by
-      simp only [Gen.limitsLoopCond, List.headD_nil, Bool.false_or, Bool.and_eq_true, decide_eq_true_eq, h.size_eq, h.lim]
-      omega
-    by_cases hcond : r.limit > 0 ∧ r.entries.length ≥ r.limit
+    have hc : (Gen.limitsLoopCond s.size s.limit (mem.headD false) = true) ↔
+        (r.entries.length > 0 ∧ (mem.headD false = true ∨ (r.limit > 0 ∧ r.entries.length ≥ r.limit))) := by
+      simp only [Gen.limitsLoopCond, Bool.and_eq_true, Bool.or_eq_true, decide_eq_true_eq, h.size_eq, h.lim]
+      constructor
+      · rintro ⟨h1, h2 | ⟨h2, h3⟩⟩
+        · exact ⟨h1, Or.inl h2⟩
+        · exact ⟨h1, Or.inr ⟨h3, h2⟩⟩
+      · rintro ⟨h1, h2 | ⟨h2, h3⟩⟩
+        · exact ⟨h1, Or.inl h2⟩
+        · exact ⟨h1, Or.inr ⟨h3, h2⟩⟩
+    by_cases hcond : r.entries.length > 0 ∧ (mem.headD false = true ∨ (r.limit > 0 ∧ r.entries.length ≥ r.limit))
     · rw [if_pos (hc.mpr hcond), if_pos hcond, sim_victim h now]
       cases hv : r.victim now with
       | none => exact h
-      | some k => exact ih (sim_drop h k)
+      | some k => exact ih (sim_drop h k) mem.tail
     · rw [if_neg (fun x => hcond (hc.mp x)), if_neg hcond]
       exact h
 
@@ -490,9 +496,14 @@ theorem refused_of_none' {s : State} (h : s.sizeLimit = none) : refused s = fals
 
 /-! ### one step, histories -/
 
-/-- Without memory pressure the concrete cache and the reference cache do the same thing: the
-relation is preserved and the answers — fetch results and `stats` — are identical. -/
-theorem sim_step {s : State} {r : Ref} (h : Sim s r) (hsl : s.sizeLimit = none) (op : Op) (hq : op.quiet) :
+/-- the size cap (`size > size_limit()`, process-shared back-end) would refuse this store -/
+def refusedIn (s : State) : Op → Bool
+  | .store _ k _ _ _ _ _ => refused (deleteNode s k)
+  | _ => false
+
+/-- The concrete cache and the reference cache do the same thing, for every allocation outcome
+(`StoreEnv`): the relation is preserved and the answers — fetch results and `stats` — are identical. -/
+theorem sim_step {s : State} {r : Ref} (h : Sim s r) (op : Op) (hnr : refusedIn s op = false) :
     Sim (step s op).1 (r.step op).1 ∧ (step s op).2 = (r.step op).2 := by
   cases op with
   | fetch now k =>
@@ -507,19 +518,33 @@ theorem sim_step {s : State} {r : Ref} (h : Sim s r) (hsl : s.sizeLimit = none) 
       · simp only [hd, decide_false, Bool.false_eq_true, if_false]
         exact ⟨sim_touch h hf, trivial⟩
   | store now k v trigs d gen env =>
-    obtain ⟨q1, q2, q3⟩ := hq
-    have hr : refused (deleteNode s k) = false := refused_of_none' ((config_deleteNode s k).2.trans hsl)
+    have hr : refused (deleteNode s k) = false := hnr
     have h1 := sim_drop h k
-    have hfuel : (deleteNode s k).size = (r.drop k).entries.length := h1.size_eq
-    have h2 := sim_makeRoom h1 (deleteNode s k).size now
-    have hk : alookup k (checkLimitsLoop (deleteNode s k).size (deleteNode s k) now []).primary = none := by
-      have := alookup_checkLimits_none (inv_deleteNode h.inv k) now [] (k := k)
-        (by rw [alookup_deleteNode h.inv]; simp)
-      exact this
-    have h3 := sim_insert h2 hk v trigs d gen
-    simp only [step, store, storeG, q1, q2, hr, Bool.false_eq_true, if_false, checkLimits, Ref.step]
-    rw [checkLimitsLoop_allFalse _ _ _ _ q3, ← hfuel]
-    exact ⟨h3, trivial⟩
+    simp only [step, store, storeG, Ref.step]
+    by_cases q1 : env.copyFails = true
+    · have : Gen.copyFailRemovesOld = true := rfl
+      simp only [q1, if_true, this]
+      exact ⟨h1, trivial⟩
+    · simp only [q1, Bool.false_eq_true, if_false, hr]
+      cases q2 : env.lateFails with
+      | some b =>
+        simp only
+        refine ⟨⟨inv_nlClear _, rfl, (by intro e he; cases he), List.Pairwise.nil, (by intro e he; cases he),
+          h.lim.trans (config_deleteNode s k).1.symm, ?_⟩, trivial⟩
+        show (if (b && gen.isNone) = true then r.generation + 1 else r.generation) =
+          (if (b && gen.isNone) = true then (deleteNode s k).generation + 1 else (deleteNode s k).generation)
+        rw [generation_deleteNode, h.gen]
+      | none =>
+        simp only
+        have hfuel : (deleteNode s k).size = (r.drop k).entries.length := h1.size_eq
+        have h2 := sim_makeRoom h1 (deleteNode s k).size now env.lowMem
+        have hk : alookup k (checkLimitsLoop (deleteNode s k).size (deleteNode s k) now env.lowMem).primary = none :=
+          alookup_checkLimits_none (inv_deleteNode h.inv k) now env.lowMem (k := k)
+            (by rw [alookup_deleteNode h.inv]; simp)
+        have h3 := sim_insert h2 hk v trigs d gen
+        simp only [checkLimits]
+        rw [← hfuel]
+        exact ⟨h3, trivial⟩
   | rise t => exact ⟨sim_rise h t, rfl⟩
   | remove k => exact ⟨sim_drop h k, rfl⟩
   | clear =>
@@ -531,15 +556,20 @@ theorem sim_step {s : State} {r : Ref} (h : Sim s r) (hsl : s.sizeLimit = none) 
 
 def refRun (r : Ref) (ops : List Op) : Ref := ops.foldl (fun r op => (r.step op).1) r
 
-theorem sim_init (limit : Nat) : Sim (State.init limit none) { limit := limit } :=
-  ⟨C07.inv_init limit none, rfl, (by intro e he; cases he), List.Pairwise.nil, (by intro e he; cases he), rfl, rfl⟩
+theorem sim_init (limit : Nat) (sl : Option Nat) : Sim (State.init limit sl) { limit := limit } :=
+  ⟨C07.inv_init limit sl, rfl, (by intro e he; cases he), List.Pairwise.nil, (by intro e he; cases he), rfl, rfl⟩
 
-theorem sim_run {s : State} {r : Ref} (h : Sim s r) (hsl : s.sizeLimit = none) (ops : List Op)
-    (hq : ∀ op ∈ ops, op.quiet) : Sim (run s ops) (refRun r ops) := by
+theorem sim_run {s : State} {r : Ref} (h : Sim s r) (ops : List Op)
+    (hnr : ∀ a op b, ops = a ++ op :: b → refusedIn (run s a) op = false) : Sim (run s ops) (refRun r ops) := by
   induction ops generalizing s r with
   | nil => exact h
   | cons op ops ih =>
-    have h1 := (sim_step h hsl op (hq op (by simp))).1
-    exact ih h1 ((config_step s op).2.trans hsl) (fun o ho => hq o (by simp [ho]))
+    have h1 := (sim_step h op (hnr [] op ops rfl)).1
+    exact ih h1 (fun a o b e => by
+      have := hnr (op :: a) o b (by rw [e]; rfl)
+      simpa [run_cons] using this)
+
+theorem refusedIn_of_none {s : State} (h : s.sizeLimit = none) (op : Op) : refusedIn s op = false := by
+  cases op <;> simp [refusedIn, refused, (config_deleteNode s _).2.trans h]
 
 end Cppcms.C08
